@@ -142,4 +142,11 @@ example : WF 1 [⟨0, 0, false⟩, ⟨1, 5, true⟩] ∧ WF 1 [⟨1, 0, true⟩,
   · intro c hc; simp only [List.mem_cons, List.not_mem_nil, or_false] at hc
     rcases hc with rfl | rfl <;> simp [InR]
 
+/-- **`xor` through the other operators**: `a xor b` denotes the same three-valued set as `(a or b) and not (a and b)` -/
+theorem xor_eq_or_and_not (D : Nat) (hD : D ≤ 29) (a b : List Cell) (ha : WF D a) (hb : WF D b)
+    (hra : ∀ c ∈ a, InR c) (hrb : ∀ c ∈ b, InR c) (lo : List Cell) (hlo : orCellsUnpacked a b = some lo)
+    (lx : List Cell) (hlx : xorCellsUnpacked a b = some lx) (x : Nat) (hx : x < 12 * 4 ^ D) :
+    stOf D lx x = stOf D (andCells lo (notCells (andCells a b))) x :=
+  Hpx.Bmoc.xor_eq_or_and_not D hD a b ha hb hra hrb lo hlo lx hlx x hx
+
 end Hpx.C08
